@@ -42,7 +42,8 @@ CELLS = [
 ]
 QUICK_CELLS = ["O2", "no_pylong_internals", "avoid_borrowed_refs", "no_type_slots"]
 QUICK_CORPORA = ["C03", "C04", "C05", "C23"]
-THOROUGH_CORPORA = ["C03", "C04", "C05", "C14", "C15", "C20", "C22", "C23", "C24", "C28"]
+# every cell re-runs the whole quick check of a corpus (TLC + builds + replay): 15 cells x 6 corpora is about an hour on 16 idle cores
+THOROUGH_CORPORA = ["C03", "C04", "C05", "C15", "C23", "C24"]
 
 
 def available(pid):
